@@ -442,10 +442,6 @@ pub fn blocked_cycles(log: &[Call], nr: usize, block_errno: i32) -> usize {
     n
 }
 
-pub fn count_ret(log: &[Call], nr: usize, e: i32) -> usize {
-    log.iter().filter(|c| c.nr == nr && is_errno(c.ret, e)).count()
-}
-
 /// Descriptor returned by the first successful `socket` call in a log (how the harness learns
 /// the descriptor of a tiny-std listener, which has no `AsRawFd`).
 pub fn socket_fd_from_log(log: &[Call]) -> Option<i32> {
